@@ -4,10 +4,11 @@
 (* with the RFC 6902 outcome predicted by JsonPatch!Apply.  With CheckImpl  *)
 (* the same run model-checks that the undo-log machine refines Apply.       *)
 EXTENDS JsonPatch, Json, TLC
-CONSTANTS MaxOps, Big, CheckImpl
+CONSTANTS MaxOps, Big, CheckImpl, NonAscii
 VARIABLES d0, ops
 
-A == <<97>>  B == <<98>>  X == <<120>>
+\* member names a, b - or z, e-acute (an ASCII / non-ASCII pair: orders differently under signed and unsigned byte comparison)
+A == IF NonAscii THEN <<122>> ELSE <<97>>  B == IF NonAscii THEN <<233>> ELSE <<98>>  X == <<120>>
 O1(k, v) == JObj([q \in {k} |-> v])
 Docs == { EmptyObj, O1(A, JInt(1)), O1(A, O1(B, JInt(1))), O1(A, JArr(<<JInt(1), JInt(2)>>)),
           JArr(<<JInt(1), JInt(2)>>), EmptyArr, JInt(1), JObj([q \in {A, B} |-> IF q = A THEN JInt(1) ELSE JArr(<<JInt(1)>>)]) }
